@@ -382,6 +382,23 @@ def rule_split(ctx):
               "partial send keeps the unsent tail", "after a partial send exactly data[bytesSent:] must remain", f.loc())
 
 
+def _buffer_write_kind(fn, x):
+    """what a write of self._readBuffer does, by shape (locals resolved): append of the received
+    message's payload, removal of a head slice, push-back in front, or clearing."""
+    from .common import resolved_text
+    if isinstance(x, ast.AugAssign) and isinstance(x.op, ast.Add) and resolved_text(fn, x.value) == "result.write()":
+        return "append"
+    if isinstance(x, ast.Assign) and isinstance(x.value, ast.Subscript) and attr_chain(x.value.value) == "self._readBuffer" \
+            and isinstance(x.value.slice, ast.Slice) and x.value.slice.upper is None and x.value.slice.lower is not None:
+        return "head"
+    if isinstance(x, ast.Assign) and isinstance(x.value, ast.BinOp) and isinstance(x.value.op, ast.Add) \
+            and attr_chain(x.value.right) == "self._readBuffer":
+        return "unread"
+    if isinstance(x, ast.Assign) and norm(x.value) in ("b''", "bytearray()", "bytearray(0)"):
+        return "clear"
+    return None
+
+
 def rule_fifo(ctx):
     R = "C01.FIFO"
     n = 0
@@ -400,7 +417,7 @@ def rule_fifo(ctx):
                 tg = [attr_chain(t.value) if isinstance(t, ast.Subscript) else attr_chain(t) for t in x.targets]
             if tg and "self._readBuffer" in tg:
                 n += 1
-                kind = allowed.get(norm(x))
+                kind = allowed.get(norm(x)) or _buffer_write_kind(fi.node, x)
                 ok = kind is not None and ((kind == "clear") == (fi.name == "clearReadBuffer")) and \
                     ((kind == "unread") == (fi.name == "unread")) and \
                     (kind not in ("append", "head") or fi.name == "readAsync")
